@@ -16,7 +16,6 @@
 (*          must have been reached at that level (vacuity guard, judged here, reported as vacuous run) *)
 (* The events of one (history, run) group arrive with lv ascending.                                    *)
 EXTENDS ArchTwins, Json, IOUtils
-CONSTANT TolerateFirSat     \* TRUE: the listed finding Farch1 (celt_fir_sse4_1 saturates to -32768, celt_fir_c to -32767) is tolerated, and nothing else
 VARIABLES l, tabs, cfg, grp, reached
 vars == <<l, tabs, cfg, grp, reached>>
 
@@ -30,10 +29,7 @@ Fx == cfg.fx
 KcOK(e) ==
   /\ e.kern \in KnownKernels
   /\ LET c == Class(e.kern, e.fx) IN
-     CASE c = "int" -> /\ e.cls = "int"
-                       /\ \/ e.ref = e.got                                     \* bit-identical
-                          \/ /\ TolerateFirSat /\ e.impl = "celt_fir_sse4_1"    \* (Farch1: every differing sample is -32767 against -32768)
-                             /\ e.nd > 0 /\ e.nd = e.nsat
+     CASE c = "int" -> e.cls = "int" /\ e.ref = e.got                            \* bit-identical
        [] e.kern = "op_pvq_search" ->
             /\ e.cls = "pvq"
             /\ e.sums = e.K /\ e.sumc = e.K                                      \* K pulses, whatever the data (NaN, Inf, ...)
@@ -48,7 +44,7 @@ KcOK(e) ==
 IsOK(e) ==
   /\ e.kern \in KnownKernels
   /\ LET c == Class(e.kern, e.fx) IN
-     CASE c = "int" -> e.neq = 0 \/ (TolerateFirSat /\ e.impl = "celt_fir_sse4_1")
+     CASE c = "int" -> e.neq = 0
        [] e.kern = "op_pvq_search" -> TRUE
        [] OTHER -> e.r <= FltBound(e.n)
 
@@ -56,14 +52,10 @@ IsOK(e) ==
 SameGroup(g, e) == g.k = e.k /\ g.t = e.t /\ (e.k = "dec" => g.src = e.src)
 ArchOK(e) == e.arch = -1 \/ e.arch = (IF e.lv <= cfg.top THEN e.lv ELSE cfg.top)
 
-FirDiffers(a, b) == \E i \in 1..Len(tabs) : tabs[i].kern = "celt_fir" /\ RowDiffers(tabs[i], a, b)
 EncPairOK(g, e) == MustBeIdentical(tabs, Fx, g.lv, e.lv) => (e.pd = g.pd /\ e.bytes = g.bytes /\ e.bad = g.bad)
 DecPairOK(g, e) ==
   /\ e.rd = g.rd                                                   \* same packets: same final ranges and sample counts
-  /\ MustBeIdentical(tabs, Fx, g.lv, e.lv) =>                      \* ... and the same PCM
-        \/ e.pd = g.pd
-        \* (Farch1 tolerated: after a concealed frame, between levels that select different celt_fir implementations)
-        \/ TolerateFirSat /\ e.clean = 0 /\ FirDiffers(g.lv, e.lv)
+  /\ MustBeIdentical(tabs, Fx, g.lv, e.lv) => e.pd = g.pd          \* ... and the same PCM
   \* (between levels that differ in float kernels the PCM may differ: e.mx, the measured max |difference| against the
   \*  level-0 twin, is recorded in the evidence only.  A first version demanded e.mx <= 4 on loss-free streams; the
   \*  pinned tree refuted the premise that no float kernel is on that path - a mode transition conceals one frame and the
